@@ -3,9 +3,9 @@
 id=$1
 cd /verif
 for i in 1 2 3 4; do
-  p=/tmp/seed/${id}_out/patch$i.diff; d=/tmp/seed/${id}_out/demo$i.py
+  p=${SEEDROOT:-/tmp/seed}/${id}_out/patch$i.diff; d=${SEEDROOT:-/tmp/seed}/${id}_out/demo$i.py
   [ -f $p ] || continue
-  [ -f $d ] || d=$(ls /tmp/seed/${id}_out/*demo$i*.py 2>/dev/null | head -1)
-  ( r=$(./tools/confirm_seed.py $p $d --orig-root /tmp/seed/$id 2>&1 | tail -2 | tr '\n' ' '); e=$(./tools/eval_seeded.py $p 2>&1 | cut -c1-300); echo "=== $id/$i :: ${r:0:200}"; echo "$e" ) &
+  [ -f $d ] || d=$(ls ${SEEDROOT:-/tmp/seed}/${id}_out/*demo$i*.py 2>/dev/null | head -1)
+  ( r=$(./tools/confirm_seed.py $p $d --orig-root ${SEEDROOT:-/tmp/seed}/$id 2>&1 | tail -2 | tr '\n' ' '); e=$(./tools/eval_seeded.py $p 2>&1 | cut -c1-300); echo "=== $id/$i :: ${r:0:200}"; echo "$e" ) &
 done
 wait
